@@ -225,6 +225,10 @@ def check_proc(p: Procedure, bounds: Bounds, tag: str, max_valuations=64, query_
         res.why = f"driver: {ex}"
         return res
     res.c_text = c_text
+    if any(i.ctype in ("int8_t", "uint8_t", "uint16_t", "int32_t") for i in infos):
+        res.status = "skipped"
+        res.why = "integer-typed data buffers are outside the reals model"
+        return res
     try:
         ir_text, workdir, warn = lower_to_ir(c_text + drv, h_text, tag, uses_isa(c_text))
     except CompileFailure as ex:
